@@ -501,3 +501,122 @@ func ZzvC20Twin() {
 	zzverif.Assert(got == v, "twin: an entry that does not select the node decides its value")
 	zzverif.Reach("end")
 }
+
+// ZzvC20Codec: the engine's encoding/json model against the real library on documents json.Marshal would
+// not produce (nulls, case-variant and duplicate keys, wrong types, overflow, unknown keys, syntax errors)
+// decoded over values that are already populated, the way util.MergeCfg and the section parsers do.
+// Every path is replayed natively (spec: validate >= number of documents) and everything observable is
+// observed, so any disagreement between the model and the library makes the run inconclusive.
+func ZzvC20Codec() {
+	v := zzverif.Int64("v", -zzvB, zzvB)
+	docs := []string{
+		`{}`,
+		`null`,
+		`{"enable":null,"cpuSuppressThresholdPercent":7}`,
+		`{"ENABLE":true,"CpuSuppressThresholdPercent":8}`,
+		`{"cpuSuppressThresholdPercent":1,"cpuSuppressThresholdPercent":2}`,
+		`{"cpuSuppressThresholdPercent":1.5,"memoryEvictThresholdPercent":3}`,
+		`{"cpuSuppressThresholdPercent":"x","memoryEvictThresholdPercent":3}`,
+		`{"unknown":{"a":[1,2,{"b":null}]},"memoryEvictThresholdPercent":4}`,
+		`[1,2]`,
+		`{"cpuSuppressPolicy":5,"cpuEvictPolicy":"evictByAllocatable"}`,
+		`{"evictEnabledPriorityThreshold":3000000000,"allocatableEvictPriorityThreshold":-5}`,
+		" {\"enable\" : true ,\n\t\"cpuEvictTimeWindowSeconds\":-0 } ",
+		`{"enable":true}x`,
+		`{"cpuEvictPolicy":"evict<&>"}`,
+		`{"enable":true`,
+		`{"memoryEvictThresholdPercent":12345678901234567890}`,
+		`{"memoryEvictThresholdPercent":1e2}`,
+		`"text"`,
+		`{"cpuSuppressThresholdPercent":null,"cpuSuppressPolicy":null}`,
+	}
+	k := zzverif.Choice("doc", len(docs))
+	slots := zzvThresholdSlots()
+	observe := func(tag string, s *zzvTS) {
+		if s == nil {
+			zzverif.Observe(tag+"_nil", 1)
+			return
+		}
+		for _, sl := range slots {
+			set, val := sl.get(s)
+			if set {
+				zzverif.Observe(tag+"_"+sl.name, val)
+			} else {
+				zzverif.Observe(tag+"_"+sl.name+"_unset", 1)
+			}
+		}
+	}
+	b2i := func(b bool) int64 {
+		if b {
+			return 1
+		}
+		return 0
+	}
+
+	// 1. over a populated strategy held in an interface, as util.MergeCfg does
+	base := sloconfig.DefaultResourceThresholdStrategy()
+	base.CPUEvictTimeWindowSeconds = &v
+	var target interface{} = base
+	err := json.Unmarshal([]byte(docs[k]), &target)
+	zzverif.Observe("merge_err", b2i(err != nil))
+	got, isStrategy := target.(*zzvTS)
+	zzverif.Observe("merge_sameType", b2i(isStrategy))
+	if isStrategy {
+		zzverif.Observe("merge_samePointer", b2i(got == base))
+		observe("merge", got)
+	}
+
+	// 2. as the strategy of a node entry (embedded pointer, inline profile) inside a section with two
+	// existing entries: elements below the old length are decoded in place, the rest is cut or appended
+	w := v
+	cfg := configuration.ResourceThresholdCfg{NodeStrategies: []configuration.NodeResourceThresholdStrategy{
+		{NodeCfgProfile: zzvProfile(0, &metav1.LabelSelector{MatchLabels: map[string]string{"a": "1"}}), ResourceThresholdStrategy: &zzvTS{CPUEvictTimeWindowSeconds: &w}},
+		{NodeCfgProfile: zzvProfile(1, nil)},
+	}}
+	entries := []int{0, 1, 3}[zzverif.Choice("entries", 3)]
+	section := `{"clusterStrategy":` + docs[k] + `,"nodeStrategies":[`
+	for e := 0; e < entries; e++ {
+		if e > 0 {
+			section += ","
+		}
+		switch e {
+		case 0:
+			section += `{"name":"first","enable":false}`
+		case 1:
+			section += `{"nodeSelector":{"matchLabels":{"b":"2"}},"cpuSuppressMinPercent":` + `5}`
+		default:
+			section += `{"name":"third"}`
+		}
+	}
+	section += `]}`
+	err = json.Unmarshal([]byte(section), &cfg)
+	zzverif.Observe("section_err", b2i(err != nil))
+	zzverif.Observe("section_entries", int64(len(cfg.NodeStrategies)))
+	observe("section_cluster", cfg.ClusterStrategy)
+	for e := range cfg.NodeStrategies {
+		es := string(rune('0' + e))
+		ns := cfg.NodeStrategies[e]
+		observe("section_entry"+es, ns.ResourceThresholdStrategy)
+		zzverif.Observe("section_entry"+es+"_named", b2i(ns.Name != ""))
+		if ns.NodeSelector != nil {
+			zzverif.Observe("section_entry"+es+"_labels", int64(len(ns.NodeSelector.MatchLabels)))
+		} else {
+			zzverif.Observe("section_entry"+es+"_noselector", 1)
+		}
+	}
+
+	// 3. what Marshal writes, Unmarshal reads (symbolic numbers included), and omitempty drops exactly the
+	// unset fields
+	if err == nil {
+		text, merr := json.Marshal(cfg)
+		zzverif.Assert(merr == nil, "a decoded section can be encoded")
+		var back configuration.ResourceThresholdCfg
+		zzverif.Assert(json.Unmarshal(text, &back) == nil, "an encoded section can be decoded")
+		zzverif.Observe("back_entries", int64(len(back.NodeStrategies)))
+		observe("back_cluster", back.ClusterStrategy)
+		for e := range back.NodeStrategies {
+			observe("back_entry"+string(rune('0'+e)), back.NodeStrategies[e].ResourceThresholdStrategy)
+		}
+	}
+	zzverif.Reach("end")
+}
